@@ -277,6 +277,7 @@ fn check_sequence(ctx: &Ctx, case_no: u64) {
     let mut blobs = Vec::new();
     let mut stream: Vec<Share> = Vec::new();
     let mut reserved = 0usize;
+    let mut inside = 0usize;
     let mut lens = Vec::new();
     let mut prev_ns: Option<Namespace> = None;
     for _ in 0..n_blobs {
@@ -300,6 +301,17 @@ fn check_sequence(ctx: &Ctx, case_no: u64) {
             return;
         };
         lens.push((len, signer));
+        // reserved-namespace shares may also sit *between the shares of one blob* (the function is
+        // documented to ignore every reserved share, wherever it is)
+        let mut sh: Vec<Share> = sh;
+        if sh.len() >= 2 && rng.gen_bool(0.4) {
+            for _ in 0..rng.gen_range(1..=2) {
+                let at = rng.gen_range(1..sh.len());
+                sh.insert(at, reserved_share(&mut rng));
+                reserved += 1;
+                inside += 1;
+            }
+        }
         stream.extend(sh);
         blobs.push(blob);
     }
@@ -317,6 +329,9 @@ fn check_sequence(ctx: &Ctx, case_no: u64) {
         Ok(Err(e)) => ctx.violation("C11/reconstruct_all/err", &format!("{e}"), detail()),
         Ok(Ok(got)) if got == blobs => {
             ctx.count("reconstruct_all_ok");
+            if inside > 0 {
+                ctx.count("reconstruct_all_ok_reserved_shares_inside_a_blob");
+            }
             if reserved > 0 && n_blobs > 1 {
                 ctx.count("reconstruct_all_ok_interleaved_multi");
             }
@@ -468,4 +483,5 @@ pub fn run(ctx: &Ctx) {
     ctx.floor("len_class/exactly-fills-last-share/share-version-0", 8);
     ctx.floor("len_class/one-byte-into-next-share/share-version-0", 8);
     ctx.floor("reconstruct_all_ok_interleaved_multi", 500);
+    ctx.floor("reconstruct_all_ok_reserved_shares_inside_a_blob", 100);
 }
